@@ -589,8 +589,8 @@ PROPS["C19"] = {
             "OpenDebug, OpenTrace, off again, and for 1 in 8 in a child process started with GOOM_DEBUG=1. Oracle (metamorphic): the transcripts "
             "(calls, arguments recorded by callbacks, results, panic classes; values by content) are identical. Added scenario kinds: text (long, multi-byte, "
             "invalid-UTF-8 and control-character strings / byte slices / error texts of 0..600 bytes as arguments and results) and origin (zoo functions mocked "
-            "with an origin placeholder; the trampoline written into the placeholder is validated with the reference decoder before the forwarding callback is run) and timenow (time.Now, which the logger itself calls, mocked in the four documented ways: same result, bounded number of callback runs). Every scenario is non-trivial; "
+            "with an origin placeholder; the trampoline written into the placeholder is validated with the reference decoder before the forwarding callback is run) and timenow (time.Now, which the logger itself calls, mocked in the four documented ways: same result, bounded number of callback runs) and slices ([]byte / []int / []string arguments and results of 0..600 elements around the lengths a renderer abbreviates at: what the caller's slices and the stubbed result slices hold after the calls, and what three consecutive stubbed calls return, is part of the transcript). Every scenario is non-trivial; "
             "distinct by (kind, target, value codes).",
     "assumptions": ["self-containing slices/maps reachable through interface{} are not generated (fmt itself overflows the stack on them)"],
-    "floors": [("scenarios", "scenario/hostile", 30), ("scenarios", "scenario/hostile2", 20), ("scenarios", "scenario/reapply", 20), ("scenarios", "scenario/iface", 15), ("scenarios", "transcripts-with-a-panic", 10), ("scenarios", "compared-with-GOOM_DEBUG-child", 5)],
+    "floors": [("scenarios", "scenario/hostile", 30), ("scenarios", "scenario/hostile2", 20), ("scenarios", "scenario/reapply", 20), ("scenarios", "scenario/iface", 15), ("scenarios", "scenario/slices", 15), ("scenarios", "transcripts-with-a-panic", 10), ("scenarios", "compared-with-GOOM_DEBUG-child", 5)],
 }
